@@ -335,6 +335,20 @@ def case_threshold(test, n, sname, seed):
       return ['%s(n=%d, %s) returned %r although n is below the documented minimum '
               '(InsufficientDataError expected)' % (nm, n, sname, str(res)[:60])]
     vals = [res] if isinstance(res, (int, float)) else [p for _, p in res]
+    if nm in ('BlockFrequency', 'LongestRuns', 'Frequency') and n <= 300000:
+      e = rn.bits_of(v, n)
+      if nm == 'BlockFrequency':
+        m = 16
+        while n // m >= 100:
+          m *= 2
+        exp = rn.block_frequency(e, max(20, m))
+      elif nm == 'LongestRuns':
+        exp = rn.longest_runs(e)
+      else:
+        exp = rn.frequency(e)
+      if not _close(res, exp, 1e-8):
+        return ['%s(n=%d, %s) = %r; SP 800-22 with the documented parameter choice gives %.12g'
+                % (nm, n, sname, res, exp)]
     bad = [p for p in vals if not _inrange(p)]
     if bad and nm == 'RandomWalk' and n < 100 and all(1 < float(p) < 1.2 for p in bad):
       return []  # asymptotic cusum formula below NIST's recommended n >= 100
